@@ -242,6 +242,9 @@ Section Model.
 
   Definition n_of (b : block) : N := N.of_nat (length (b_txs b)).
 
+  (* PreExecution returns no error (ProcessBeaconBlockRoot ignores the call's error,
+     ProcessParentBlockHash panics), so [e_ok] of the pre phase is not consulted by
+     either processor; PostExecution's error aborts the block in both. *)
   Definition seq_process (pre : view) (b : block) : option (presult * view) :=
     let e0 := b_pre b pre in
     let s1 := apply_writes pre (e_writes e0) in
